@@ -176,6 +176,8 @@ DEFAULT_PROFILE = {
     "p_noise": 0.3,
     "stop_fields": None,
     "p_save_tuner": 0.05,
+    "p_payload": 0.0,
+    "p_rejects": 0.0,
 }
 
 
@@ -350,6 +352,11 @@ def gen_scenario(root, profile=None):
         script["extra"] = r.sample(["str", "nan", "int"], r.randint(1, 3))
     if r.chance(p["p_noise"]):
         script["noise"] = r.randint(1, 3)
+    if r.chance(p["p_payload"]):
+        script["payload"] = r.sample(["str", "nested", "numpy", "inf"], r.randint(1, 4))
+    if r.chance(p["p_rejects"]):
+        script["rejects"] = {"p": r.choice([0.2, 0.5]), "kinds": r.sample(
+            ["reserved", "unserialisable_set", "unserialisable_obj", "ndarray", "oversize", "none"], r.randint(1, 4))}
     scen["script"] = script
     # ---- tuner ------------------------------------------------------------
     stop = {}
